@@ -188,6 +188,70 @@ async fn pooled_link_loss(fails: &mut Vec<String>, t: &mut String) {
   }
 }
 
+/// Pooled mode: the modulator accepts the connection but never answers `S2M_CONNECT` (a hung process). The call that needed the
+/// link must end — in an error — within a few connect timeouts, and must not keep later calls from using a healthy link.
+async fn pooled_black_hole(fails: &mut Vec<String>, t: &mut String) {
+  let (a1, b1) = match UnixStream::pair() { Ok(p) => p, Err(_) => return };
+  let (a2, b2) = match UnixStream::pair() { Ok(p) => p, Err(_) => return };
+  let mut cfg = narwhal_modulator::config::S2mClientConfig::default();
+  cfg.network = "unix".into();
+  cfg.socket_path = "/nonexistent".into();
+  cfg.max_idle_connections = 4;
+  cfg.heartbeat_interval = Duration::from_secs(3600);
+  cfg.connect_timeout = Duration::from_millis(300);
+  cfg.timeout = Duration::from_millis(TIMEOUT_MS);
+  cfg.payload_read_timeout = Duration::from_millis(100);
+  cfg.backoff_initial_delay = Duration::from_millis(1);
+  cfg.backoff_max_delay = Duration::from_millis(2);
+  cfg.backoff_max_retries = 1;
+  let Ok(client) = S2mClient::new_with_dialer(cfg, Arc::new(PairDialer(Mutex::new(vec![a2, a1])))) else { return };
+  let client = Arc::new(client);
+  let ack = "S2M_CONNECT_ACK application_protocol=TEST/1.0 heartbeat_interval=3600000 max_inflight_requests=8 max_message_size=4096 max_payload_size=1024 operations:1=auth\n";
+  let mut p1 = Peer { s: b1, buf: Vec::new() };
+  let mut p2 = Peer { s: b2, buf: Vec::new() };
+  // first use: link 1 swallows the handshake
+  let c = client.clone();
+  let h1 = tokio::task::spawn_local(async move { c.operations().await.map(|_| ()) });
+  let _ = p1.next(200).await;
+  let first = tokio::time::timeout(Duration::from_millis(3_000), h1).await;
+  let outcome1 = match &first {
+    Err(_) => "hang",
+    Ok(Ok(Ok(()))) => "ok",
+    Ok(Ok(Err(_))) => "error",
+    Ok(Err(_)) => "panic",
+  };
+  let _ = writeln!(t, "# pooled black hole, first use: {outcome1}");
+  if outcome1 == "hang" || outcome1 == "panic" {
+    for tag in ["C13", "C16"] {
+      fails.push(format!(
+        "{tag}: [handshake-black-hole] the modulator accepted the link but never answered S2M_CONNECT (connect_timeout 300 ms): the call that needed the link ended in a {outcome1} after 3 s instead of an error"
+      ));
+    }
+  }
+  // second use: a healthy link is available
+  let c = client.clone();
+  let h2 = tokio::task::spawn_local(async move { c.operations().await.map(|_| ()) });
+  let served = tokio::time::timeout(Duration::from_millis(3_000), async {
+    loop {
+      if let Some((Message::S2mConnect(_), _)) = p2.next(50).await {
+        p2.send(ack.as_bytes()).await;
+      }
+      if h2.is_finished() {
+        break;
+      }
+    }
+  })
+  .await;
+  let outcome2 = if served.is_err() { "hang" } else { "done" };
+  let _ = writeln!(t, "# pooled black hole, second use: {outcome2}");
+  if outcome2 == "hang" {
+    for tag in ["C13", "C16"] {
+      fails.push(format!("{tag}: [handshake-black-hole] after a hung handshake the next call did not conclude within 3 s although a healthy link was available"));
+    }
+  }
+  drop(p1);
+}
+
 pub async fn run_suite(seed: u64, cases: usize) -> String {
   let mut r = Rng::new(seed ^ 0x52a);
   let mut t = String::new();
@@ -465,6 +529,7 @@ pub async fn run_suite(seed: u64, cases: usize) -> String {
     }
   }
   pooled_link_loss(&mut fails, &mut t).await;
+  pooled_black_hole(&mut fails, &mut t).await;
   for f in &fails {
     let _ = writeln!(t, "oracle-failure case=0 {f}");
   }
